@@ -89,7 +89,8 @@ def gen_spec(rng, fx, k, counters):
     kind = rng.choice(("bottleneck", "bottleneck", "wasserstein", "wasserstein", "heat", "sliced_wasserstein",
                        "persistent_entropy", "gromov_hausdorff", "kernel", "weight", "exact", "exact", "approx", "approx",
                        "plot_diagrams", "bottleneck_matching", "wasserstein_matching", "plot_landscape_simple",
-                       "imager.plot_diagram", "imager.plot_image", "persimage", "obj", "obj", "obj", "obj"))
+                       "imager.plot_diagram", "imager.plot_image", "persimage", "persimage", "plot_landscape",
+                       "obj", "obj", "obj", "obj"))
     rep = lambda: rng.choice(REPS)  # noqa: E731
     s = {"fn": kind}
     if kind in ("bottleneck", "wasserstein"):
@@ -113,9 +114,11 @@ def gen_spec(rng, fx, k, counters):
         s.update(gs=[rng.randrange(3) for _ in range(n)], fmts=[rng.choice(("csr", "csr0", "dense", "list")) for _ in range(n)],
                  seed=rng.randrange(1000), collection=coll)
     elif kind == "kernel":
-        w = rng.choice(("gaussian", "gaussian", "uniform", "norm_cdf"))
+        w = rng.choice(("gaussian", "gaussian", "uniform", "norm_cdf", "bvn_cdf", "sbvn_cdf"))
         s.update(which=w, mu=[rng.choice((0.0, 0.5, -1.0)), rng.choice((0.0, 0.25))])
-        if w == "gaussian":
+        if w == "sbvn_cdf":
+            s.update(sx=rng.choice((1.0, 0.5)), sy=rng.choice((1.0, 2.0)))
+        if w in ("gaussian", "bvn_cdf"):
             v = rng.choice((1.0, 0.25))
             r = rng.choice((0.0, 0.5, 0.95, -0.6))
             s["sigma"] = [[v, r * v], [r * v, v]]
@@ -123,11 +126,17 @@ def gen_spec(rng, fx, k, counters):
         s.update(a=rng.randrange(nd), which=rng.choice(("persistence", "linear_ramp")), n=rng.choice((1.0, 2.0)),
                  rep={"a": rng.choice(("f64", "i64", "f32"))})
     elif kind in ("exact", "approx"):
-        whats = ("build", "p_norm", "sup_norm", "add", "sub", "mul", "getitem", "death_vector")
-        whats += ("vectorize",) if kind == "exact" else ("snap", "lc", "avg")
+        whats = ("build", "p_norm", "sup_norm", "add", "sub", "mul", "rmul", "div", "neg", "getitem", "death_vector")
+        whats += ("vectorize", "by_depth") if kind == "exact" else ("snap", "lc", "avg", "values_to_pairs")
         s.update(ds=[rng.randrange(nd), rng.randrange(nd)], what=rng.choice(whats), hom_deg=rng.choice((0, 0, 1)),
                  compute=rng.random() < 0.8, p=rng.choice((1, 2, 3, -0.5)), c=rng.choice((2.0, -1.5)),
-                 num_steps=rng.choice((21, 41)))
+                 num_steps=rng.choice((21, 41)), depth=rng.choice((0, 0, 1)))
+    elif kind == "plot_landscape":
+        s.update(ds=[rng.randrange(nd)], approx=rng.random() < 0.5, steps=rng.choice((8, 12)))
+        if rng.random() < 0.3:
+            s["title"] = "T"
+        if rng.random() < 0.3:
+            s["depth_range"] = 1
     elif kind == "plot_diagrams":
         n = rng.randint(1, 3)
         o = {}
@@ -150,7 +159,12 @@ def gen_spec(rng, fx, k, counters):
     elif kind == "persimage":
         n = rng.randint(1, 2)
         s.update(ds=[rng.randrange(nd) for _ in range(n)], as_list=n > 1, spread=rng.choice((None, 0.5)),
-                 rep={"ds": [rng.choice(("f64", "i64", "f32", "list")) for _ in range(n)]})
+                 rep={"ds": [rng.choice(("f64", "i64", "f32", "list")) for _ in range(n)]},
+                 what=rng.choice(("transform", "transform", "to_landscape", "to_landscape", "weighting", "kernel", "show")))
+        if s["what"] == "weighting":
+            s["with_landscape"] = rng.random() < 0.7
+        if s["what"] == "kernel":
+            s["kspread"] = rng.choice((1.0, 0.5))
     else:  # stateful object of this client
         okind = rng.choice(("imager", "landscaper"))
         slot = rng.randrange(2)
@@ -158,7 +172,7 @@ def gen_spec(rng, fx, k, counters):
         s.update(kind=okind, obj_id=oid)
         if okind == "imager":
             s["ctor"] = slot % 2
-            m = rng.choice(("fit", "transform", "transform", "fit_transform", "pixel_size=", "birth_range="))
+            m = rng.choice(("fit", "transform", "transform", "fit_transform", "pixel_size=", "birth_range=", "pers_range="))
         else:
             # constructor arguments are a function of the object's identity (one object, one constructor call)
             a = {"num_steps": 9 if slot == 0 else 17, "hom_deg": k % 2, "flatten": (k + slot) % 2 == 1}
@@ -171,6 +185,8 @@ def gen_spec(rng, fx, k, counters):
             call["val"] = rng.choice((0.1, 0.2, 0.25, 0.5))
         elif m == "birth_range=":
             call["val"] = rng.choice(([0.0, 1.0], [-1.0, 2.0], [0.0, 4.0]))
+        elif m == "pers_range=":
+            call["val"] = rng.choice(([0.0, 1.0], [0.0, 2.5], [0.5, 3.0]))
         else:
             n = rng.randint(1, 3)
             call.update(ds=[rng.randrange(nd) for _ in range(n)], skew=rng.random() < 0.8,
@@ -267,6 +283,8 @@ def site_of(spec):
         return "weight.%s" % spec.get("which")
     if fn == "obj":
         return "%s.%s" % (spec.get("kind"), (spec.get("call") or {}).get("m"))
+    if fn == "persimage":
+        return "persimage.%s" % spec.get("what", "transform")
     if fn == "plot_diagrams" and spec.get("ax") == "none":
         return "plot_diagrams(ax=None)"
     return fn
@@ -395,7 +413,7 @@ def run_case(case, sched):
                                         ("seeded-rng" if spec["fn"] == "gromov_hausdorff" else "value") + "/" + rep_tag(spec),
                                         "result differs from the same call executed alone in a fresh process at %s "
                                         "(history position %d, env %s)" % (where, opi, env), opi)
-            if spec["fn"] == "obj" and spec["call"]["m"] in ("fit", "fit_transform", "pixel_size=", "birth_range="):
+            if spec["fn"] == "obj" and spec["call"]["m"] in ("fit", "fit_transform", "pixel_size=", "birth_range=", "pers_range="):
                 prefix.setdefault(spec["obj_id"], []).append(copy.deepcopy(spec["call"]))
             # ---- representation independence
             alt = op.get("alt_rep")
